@@ -42,7 +42,7 @@ Section Eff.
              (w : world) (t : task) (f : fault) : list effect :=
     let r := run_task body c E dyn desel w t f in
     match r_out r with
-    | OPersist => commit_effects E w t
+    | OPersist => if dry_run c then [] else commit_effects E w t
     | OSuccess =>
       let w1 := fst (run_body body w t f) in
       write_effects w t f ++ commit_effects E w1 t
